@@ -7,8 +7,8 @@
 #include <thread>
 
 using namespace std::chrono_literals;
-enum Op { ACQ, TRY, REL1, REL2, TIMED, NOP };
-static const char* opn[] = {"acquire", "try_acquire", "release(1)", "release(2)", "try_acquire_for", "nop"};
+enum Op { ACQ, TRY, REL1, REL2, TIMED, TIMED_SHORT, NOP };
+static const char* opn[] = {"acquire", "try_acquire", "release(1)", "release(2)", "try_acquire_for(50ms)", "try_acquire_for(5ms)", "nop"};
 
 struct Ledger
 {
@@ -69,11 +69,12 @@ static void do_op(Sem& sem, Ledger& L, int op)
     }
     break;
     case TIMED:
+    case TIMED_SHORT:
     {
-        uint64_t deadline = pmc_now() + 50000000ull;
+        uint64_t deadline = pmc_now() + (op == TIMED ? 50000000ull : 5000000ull);
         pmc_deadline(deadline);
         ++L.in_acquire;
-        bool ok = sem.try_acquire_for(50ms);
+        bool ok = op == TIMED ? sem.try_acquire_for(50ms) : sem.try_acquire_for(5ms);
         --L.in_acquire;
         if (ok)
         {
@@ -108,7 +109,7 @@ static bool terminates(long c, const int* ops, int ntasks, int per_task)
             int op = ops[t * per_task + i];
             if (!behind_acquire && op == REL1) rel += 1;
             if (!behind_acquire && op == REL2) rel += 2;
-            if (op == ACQ || op == TRY || op == TIMED) ++takers;
+            if (op == ACQ || op == TRY || op == TIMED || op == TIMED_SHORT) ++takers;
             if (op == ACQ) behind_acquire = true;
         }
     }
@@ -371,8 +372,8 @@ int main(int argc, char** argv)
     static const char* focus = "F-addr: the semaphore object (value_, internal spinlock, waiter queue) + each task's thread_data";
     static const pmc_spec specs[] = {
         {"sem_seq", sem_sequential, 0, 0, 0.05, 0.03, 0, "sequential histories depth<=4 (data choices)", nullptr, nullptr},
-        {"sem_timed_pair", sem_tasks<pika::counting_semaphore<>, 2, 1, 5, 1>, 1, 2, 0.2, 0.15, 1, focus, nullptr, nullptr},
-        {"sem_3x1", sem_tasks<pika::counting_semaphore<>, 3, 1, 5, 2>, 1, 2, 0.25, 0.25, 1, focus, nullptr, nullptr},
+        {"sem_timed_pair", sem_tasks<pika::counting_semaphore<>, 2, 1, 6, 1>, 1, 2, 0.2, 0.15, 1, focus, nullptr, nullptr},
+        {"sem_3x1", sem_tasks<pika::counting_semaphore<>, 3, 1, 6, 2>, 1, 2, 0.25, 0.25, 1, focus, nullptr, nullptr},
         {"sem_2x2", sem_tasks<pika::counting_semaphore<>, 2, 2, 3, 1>, 1, 2, 0.15, 0.15, 1, focus, nullptr, nullptr},
         {"sem_two_blocked", sem_two_blocked<pika::counting_semaphore<>>, 1, 2, 0.1, 0.1, 1, focus, nullptr, nullptr},
         {"binary_2x1", sem_tasks<pika::binary_semaphore<>, 2, 1, 5, 1>, 1, 2, 0.05, 0.05, 1, focus, nullptr, nullptr},
@@ -383,7 +384,7 @@ int main(int argc, char** argv)
     static const char* assumptions[] = {"sequentially consistent interleavings only", "2 worker threads; 2-3 tasks; 1-2 operations each", "timed acquires: 50 ms virtual deadline; 'deadline passes here' is an explorer deviation"};
     pmc_config cfg{};
     cfg.property_id = "C08";
-    cfg.rule = "initial count x op words over {acquire, try_acquire, release(1), release(2), try_acquire_for} (data choices, programs that cannot terminate are skipped) x all schedules within the deviation bound";
+    cfg.rule = "initial count x op words over {acquire, try_acquire, release(1), release(2), try_acquire_for(50 ms), try_acquire_for(5 ms)} (data choices, programs that cannot terminate are skipped) x all schedules within the deviation bound";
     cfg.assumptions = assumptions;
     cfg.n_assumptions = 3;
     cfg.warmup = rt::warmup;
